@@ -17,6 +17,7 @@ TECHNIQUE = (
     "edition-boundary year x every year position x {own, parallel} through get_citations(), plus all fragment "
     "sequences <= depth k; remove_ambiguous compared with the filtered default run on every document"
 )
+TECHNIQUE += "; " + 'also: every 10th (thorough: every) year since 1600, boundary years of every edition a string can denote, repeated citations, later mentions, year-carrying example citations of reporters-db'
 RULE = (
     "editions: every key of EDITIONS_LOOKUP (all edition names and variations) rendered as 'Foo v. Bar, 12 R 345'; those "
     "with >=2 candidate editions x years {none, start-1, start, end, end+1 of each edition the string can denote (exact or variation), every 10th year (quick) / every year (thorough) from 1600, 1599, 1600, this year, "
